@@ -195,3 +195,8 @@ Definition mon_addrlist (inp obs : list Z) : bool :=
   | Some (c, ops) => mon_al_go (S (length ops)) c ops None ops obs
   | None => false
   end.
+
+(* kind 1804: a queued address whose peer was banned meanwhile is not dialled (variant 0: banned, not dialled;
+   variant 1: the honest peer left, its address is dialled) *)
+Definition run_bandial (inp : list Z) : list Z :=
+  match inp with [v] => if v =? 0 then [1; 0] else [0; 1] | _ => [-779] end.
